@@ -34,34 +34,29 @@ Proof.
 Qed.
 Print Assumptions C02_apis_agree.
 
-(* refusal: a string containing NUL, an invalid object path or signature, a taken descriptor, or a
-   variant whose signature exceeds 255 bytes - at any position inside the value - makes the call fail *)
-Theorem C02_typed_refuses : forall be v, typed v -> leaves_ok v = false ->
+(* refusal: a string containing NUL, an invalid object path or signature, a taken descriptor, or a variant whose
+   printed signature does not validate (longer than 255 bytes, nested beyond 32+32, an empty struct; the typed API checks
+   this since fix ef1b771) - at any position inside the value - makes the call fail *)
+Theorem C02_typed_refuses : forall be v, typed v -> (leaves_ok v = false \/ variant_sigs_ok v = false) ->
   forall c, snd (marshal_t be v c) = false.
-Proof.
-  intros be v Ht Hl c. destruct (marshal_t be v c) as [c' [|]] eqn:E; [|reflexivity].
-  rewrite (marshal_t_refuses be v Ht c c' E) in Hl. discriminate.
-Qed.
+Proof. intros be v Ht H c. exact (marshal_t_refuses_any be v c Ht H). Qed.
 Print Assumptions C02_typed_refuses.
 
-Theorem C02_param_refuses : forall be v d, typed v -> leaves_ok v = false ->
+Theorem C02_param_refuses : forall be v d, typed v -> (leaves_ok v = false \/ variant_sigs_ok v = false) ->
   forall c, snd (marshal_p be d v c) = false.
-Proof.
-  intros be v d Ht Hl c. destruct (marshal_p be d v c) as [c' [|]] eqn:E; [|reflexivity].
-  rewrite (marshal_p_refuses be v Ht d c c' E) in Hl. discriminate.
-Qed.
+Proof. intros be v d Ht H c. exact (marshal_p_refuses_any be d v c Ht H). Qed.
 Print Assumptions C02_param_refuses.
 
 (* acceptance - the converse: a well-typed value whose leaves are acceptable and whose array / dict bodies
    (laid out from the position where the value is written; measured from the first element after the padding
    that follows the length field) are all within 64 MiB IS marshalled. Neither string lengths nor the number
    of descriptors are conditions: the code truncates them with 'as u32' (C02_*_bytes need them for the bytes) *)
-Theorem C02_typed_accepts : forall be v c, typed v -> leaves_ok v = true ->
+Theorem C02_typed_accepts : forall be v c, typed v -> leaves_ok v = true -> variant_sigs_ok v = true ->
   arrays_within be (len (mbuf c)) v = true -> snd (marshal_t be v c) = true.
 Proof. exact marshal_t_accepts. Qed.
 Print Assumptions C02_typed_accepts.
 
-(* the Param API additionally validates the printed signature of every variant and counts nesting *)
+(* the Param API additionally counts nesting *)
 Theorem C02_param_accepts : forall be depth v c, typed v -> leaves_ok v = true -> variant_sigs_ok v = true ->
   nest_ok depth v = true -> arrays_within be (len (mbuf c)) v = true -> snd (marshal_p be depth v c) = true.
 Proof. exact marshal_p_accepts. Qed.
@@ -69,7 +64,8 @@ Print Assumptions C02_param_accepts.
 
 (* exactly when *)
 Theorem C02_typed_exactly : forall be v c, typed v ->
-  (snd (marshal_t be v c) = true <-> leaves_ok v = true /\ arrays_within be (len (mbuf c)) v = true).
+  (snd (marshal_t be v c) = true
+   <-> leaves_ok v = true /\ variant_sigs_ok v = true /\ arrays_within be (len (mbuf c)) v = true).
 Proof. exact marshal_t_exactly. Qed.
 Print Assumptions C02_typed_exactly.
 
